@@ -63,7 +63,7 @@ def is_zstr(v):
 
 def is_sym(v):
     """anything that is not a plain concrete python object"""
-    return isinstance(v, (z3.ExprRef, SeqV))
+    return isinstance(v, (z3.ExprRef, SeqV, SymList))
 
 
 class Unsupported(Exception):
@@ -113,6 +113,13 @@ class SeqV:
 
     def __repr__(self):
         return f"SeqV(n={self.n}, arr={self.arr})"
+
+
+class SymList:
+    """immutable sequence of symbolic length n whose i-th element is at(engine, i) (any value)"""
+
+    def __init__(self, n, at):
+        self.n, self.at = n, at
 
 
 class FiltV:
